@@ -61,7 +61,7 @@ ASSUMPTIONS = [
     "not generated: timestamp age and arrival silence legitimately differ there)",
     "virtual time: data timers and blocking deadlines elapse exactly",
 ]
-MIN_LABELS = {"C16": {"silence_ge_max_age": 0.2, "faulty_between_healthy": 0.15, "two_consecutive_failures": 0.15,
+MIN_LABELS = {"C16": {"silence_ge_max_age": 0.1, "faulty_between_healthy": 0.07, "two_consecutive_failures": 0.15,
                       "uncertain_seen": 0.3}}
 
 MAX_AGE = 10.0
